@@ -122,6 +122,13 @@ def make_case(family, i, rng, tier):
                                   [['X-Dup', 'one'], ['X-Dup', 'two']],
                                   [['Cookie', 'a=1'], ['X-Other', 'z'],
                                    ['cookie', 'b=2']]])
+    if rng.random() < 0.3:
+        # another WebSocket object of the process has custom headers of its
+        # own (added before this one is even constructed)
+        case['other_headers'] = rng.choice([
+            [['X-Foreign', 'one']],
+            [['Authorization', 'Bearer of-the-other-object'],
+             ['Cookie', 'other=1']]])
     case['compress'] = rng.random() < 0.4
     case['agent'] = rng.choice([None, None, 'TestAgent/1.0 (x; y)',
                                 u'Agent \u20ac \u0416'])
@@ -250,7 +257,11 @@ def build(case):
           'compress': bool(case.get('compress'))}
     if case.get('agent'):
         ws['agent'] = case['agent']
-    sc = {'url': case['url'], 'ws': ws,
+    others = []
+    if case.get('other_headers'):
+        others = [{'url': 'ws://other.test/', 'ws': {
+            'headers': case['other_headers']}}]
+    sc = {'url': case['url'], 'ws': ws, 'other_objects': others,
           'connect': {'ping_rate': 0, 'poll': 5},
           'conns': conns, 'n_connects': len(conns)}
     # the step index convention used by C02 (single reply step)
